@@ -158,6 +158,17 @@ func (r *vC19Recorder) take() []vC19Captured {
 	return out
 }
 
+// the UUID by which a forwarded form of the token is recognised ("" for a string that has none)
+func vC19UUIDOf(t vC19Concrete) string {
+	if t.acaUUID != "" {
+		return t.acaUUID
+	}
+	if parts := strings.Split(t.token, "/"); len(parts) >= 3 && parts[0] == "v2" && t.class != "opaque" {
+		return parts[1]
+	}
+	return ""
+}
+
 // vC19Observe: one observation record per incoming token (with the places where its secret was seen:
 // "url", "body", "header:<name>").
 func vC19Observe(reqs []vC19Captured, toks []vC19Concrete) []map[string]interface{} {
@@ -196,9 +207,13 @@ func vC19Observe(reqs []vC19Captured, toks []vC19Concrete) []map[string]interfac
 	}
 	obs := make([]map[string]interface{}, len(toks))
 	for i, t := range toks {
-		o := map[string]interface{}{"leak": false, "same": false, "salted": false, "twice": false}
+		o := map[string]interface{}{"leak": false, "same": false, "salted": false, "twice": false, "uuid": false}
 		where := map[string]bool{}
+		uuid := vC19UUIDOf(t)
 		for _, p := range places {
+			if uuid != "" && strings.Contains(p.text, uuid) {
+				o["uuid"] = true // the token is forwarded in some form
+			}
 			if strings.Contains(p.text, t.secret) {
 				o["leak"] = true
 				where[p.name] = true
